@@ -15,7 +15,7 @@ RULE = ("slot-allocation machine: state = sequence of envelopes handed to image 
         "slice) is run and the three domain hex files are read back with the verifier's Intel-HEX reader and compared "
         "with a reference model (dict role -> stored bytes + the layout table copied from the property anchors): "
         "populated addresses are exactly the slots of that domain's roles, each slot decodes as {0:1, 1:offset, 2:envelope} "
-        "+ 0xFF fill, envelope[offset:offset+16] is the class UUID, the stored envelope has exactly keys 2 and 3 with "
+        "+ 0xFF fill, envelope[offset:offset+16] is the class UUID, the stored envelope has exactly the non-severable integer members of the input (keys 2 and 3, and key 1 when the input has a delegation chain) with "
         "spans byte-identical to the input, rejects raise and leave the directory empty. Plus the full variant product per "
         "role {unsigned, signed} x {plain, all severable members + payloads + dependency} x component-ID position x size "
         "{small, exactly fits, one byte too large} and (thorough) all 2^11 role subsets x 4 base addresses.")
@@ -127,7 +127,12 @@ def role_desc(vendor, cls, rich=False, cid_pos="middle", filler=0, seq=1):
     else:
         items = list(body.items())
         man = {**head, **dict(items[:1]), "suit-manifest-component-id": cid, **dict(items[1:])}
-    return {"SUIT_Envelope_Tagged": {"suit-authentication-wrapper": {"SuitDigest": gen.digest("cose-alg-sha-256")}, "suit-manifest": man, **env}}
+    deleg = {}
+    if rich and cid_pos in ("middle", "last"):
+        # a delegation chain (envelope key 1) is neither severable nor a payload: it stays in the stored envelope
+        deleg = {"suit-delegation": [[{"CoseSign1Tagged": {"protected": {"suit-cose-algorithm-id": "cose-alg-es-256"}, "unprotected": {},
+                                                           "payload": None, "signature": "ab" * 64}}]]}
+    return {"SUIT_Envelope_Tagged": {**deleg, "suit-authentication-wrapper": {"SuitDigest": gen.digest("cose-alg-sha-256")}, "suit-manifest": man, **env}}
 
 
 def sign(b, d):
@@ -141,9 +146,11 @@ def sign(b, d):
 
 
 def expected_stored(b):
-    """reference: the input stripped to keys 2 and 3, spans byte-identical, same order."""
+    """reference: the input without its severable members (15, 16, 18, 20, 23) and without integrated payloads /
+    dependencies (text keys); what remains - authentication wrapper, manifest, and a delegation chain if there is
+    one - byte-identical and in the same order."""
     env, raw = impl.envelope_members(b)
-    keep = [(k, raw[k]) for k in raw if k in (2, 3)]
+    keep = [(k, raw[k]) for k in raw if isinstance(k, int) and k not in (15, 16, 18, 20, 23)]
     return refcbor.enc(refcbor.Tag(107, refcbor.Pairs((k, refcbor.Raw(v)) for k, v in keep)))
 
 
